@@ -43,3 +43,8 @@ Definition run_show (x:sx) : sx :=
       | _, _, _, _ => sx_bad end
   | _ => sx_bad
   end.
+
+(* the side condition of C19_expert_filter_is_prune, evaluated on a tree sent by the harness *)
+From Phil Require Import ShowProofs.
+Definition run_wfshow (x:sx) : sx :=
+  match objs_of_sx x with Some l => sx_bool (forallb wf_show l) | None => sx_bad end.
